@@ -87,7 +87,9 @@ Plan gen(uint64_t seed, const std::string& tier) {
     if (end < nh - 1) {
         end = nh - 1;
     }
-    op.a = {double(nh), double(kind), double(r.seed32()), thr, amp_db, noise, double(end), double(total), double(r.seed32()), double(has)};
+    // level of the REFERENCE sequence handed to the detector (the score is normalised by rms(h): any level must do)
+    const double href_db = r.chance(0.5) ? 0.0 : r.pick(std::vector<double>{-40, -20, -10, 10, 18, 30});
+    op.a = {double(nh), double(kind), double(r.seed32()), thr, amp_db, noise, double(end), double(total), double(r.seed32()), double(has), href_db};
     pl.ops.push_back(op);
     return pl;
 }
@@ -113,7 +115,15 @@ Result exec(const Plan& pl) {
         res.invalid = true;
         return res;
     }
-    const std::vector<cld> h = make_preamble(nh, kind, seed);
+    const double href = std::pow(10.0, op.arg(10, 0.0) / 20.0);
+    if (!(href > 1e-6 && href < 1e6)) {
+        res.invalid = true;
+        return res;
+    }
+    std::vector<cld> h = make_preamble(nh, kind, seed);
+    for (auto& v : h) {
+        v *= static_cast<long double>(href);   // the stream below carries amp * h (so its level is amp * href)
+    }
     arr_cmplx ha(nh);
     for (int i = 0; i < nh; ++i) {
         ha[i] = cmplx_t{double(h[size_t(i)].real()), double(h[size_t(i)].imag())};
